@@ -94,11 +94,11 @@ private theorem externsUsed_contains (body : List (BInstr F)) (n : String) :
   simp [externsUsed]
 
 /-- the model, written with the same predicates as the checker -/
-theorem simplify_eq (selfFrames : List (F × String)) (e : Prog F) :
-    simplify selfFrames e =
+theorem simplify_eq (e : Prog F) :
+    simplify e =
       { e with
         calibrations := []
-        frames := selfFrames.filter (keepFrameB e.body)
+        frames := e.frames.filter (keepFrameB e.body)
         waveforms := e.waveforms.filter (keepWaveformB e.body)
         externs := e.externs.filter (keepExternB e.body) } := by
   simp only [simplify]
@@ -114,11 +114,10 @@ theorem simplify_eq (selfFrames : List (F × String)) (e : Prog F) :
     intro x _
     simp only [keepWaveformB, waveformsUsed_contains]
 
-/-- **C35 (definitions and body), all programs**: when the original program's frame set is the expanded
-program's (no DEFFRAME inside a calibration body), `simplify` returns the expanded body, no calibrations,
+/-- **C35 (definitions and body), all programs**: `simplify` returns the expanded body, no calibrations,
 exactly the frames some body instruction uses, exactly the waveforms invoked, exactly the extern pragmas
 called, and the declarations, gate definitions and circuits unchanged. -/
-theorem C35_simplify_spec (e : Prog F) : Simplified e (simplify e.frames e) := by
+theorem C35_simplify_spec (e : Prog F) : Simplified e (simplify e) := by
   rw [simplify_eq]
   refine ⟨rfl, rfl, List.filter_sublist, ?_, List.filter_sublist, ?_, List.filter_sublist, ?_, rfl, rfl, rfl⟩
   · intro f; simp [keepFrame_iff]
@@ -146,7 +145,7 @@ theorem C35_simplifiedB_iff (e s : Prog F) (hf : e.frames.Nodup) (hw : e.wavefor
 /-- **The specification determines the result** (it is not looser than the model): any program
 satisfying `Simplified e` is the model's output. -/
 theorem C35_spec_unique (e s : Prog F) (hf : e.frames.Nodup) (hw : e.waveforms.Nodup) (hx : e.externs.Nodup)
-    (h : Simplified e s) : s = simplify e.frames e := by
+    (h : Simplified e s) : s = simplify e := by
   have hb := (C35_simplifiedB_iff e s hf hw hx).2 h
   simp only [simplifiedB, keptB, Bool.and_eq_true, decide_eq_true_eq, List.isEmpty_iff] at hb
   obtain ⟨⟨⟨⟨⟨⟨⟨h1, h2⟩, h3⟩, h4⟩, h5⟩, h6⟩, h7⟩, h8⟩ := hb
@@ -157,7 +156,7 @@ theorem C35_spec_unique (e s : Prog F) (hf : e.frames.Nodup) (hw : e.waveforms.N
 /-- non-vacuity: an unused frame, an unused waveform, an unused and a nameless extern are removed; used ones,
 the declaration and the gate definition stay -/
 example :
-    simplify [(0, "a"), (1, "b")]
+    simplify
       ({ calibrations := ["DEFCAL X 0"], externs := [(some "f", "f"), (some "g", "g"), (none, "h")],
          frames := [(0, "a"), (1, "b")], regions := [("ro", "BIT")], waveforms := [("w", "1"), ("v", "2")],
          gates := [("G", "m")], circuits := [],
